@@ -572,6 +572,56 @@ let dispatch_case (toks : string list) : string =
     else Printf.sprintf "M ok=%d bad=0 short=0 shutdown=%d threads_left=%d" !ok ended (1 - ended)
   | _ -> "BADCASE"
 
+(* ---------------- server time-outs (C14) ---------------- *)
+
+(* The scan ticks every 500 ms with an unknown phase; the client's sends can be late.  The case is decided by the
+   model only if every phase (10 ms grid, both tie orders) and every lateness (0/30/60 ms) gives the same outcome. *)
+let timeout_case (toks : string list) : string =
+  match toks with
+  | [ "W"; hT; bT; script ] ->
+    let hT = int_of_string hT and bT = int_of_string bT in
+    let steps = List.filter (fun x -> x <> "") (String.split_on_char ',' script) in
+    let simulate phase late tick_first =
+      (* events: (time, order, kind) *)
+      let t = ref 0 and sends = ref [] in
+      List.iter (fun st -> if st.[0] = 'd' then t := !t + int_of_string (String.sub st 1 (String.length st - 1)) + late
+                  else sends := (!t, st.[0]) :: !sends) steps;
+      let sends = List.rev !sends in
+      let t_end = !t in
+      let horizon = t_end + bT + 2500 in
+      let ticks = let rec go k acc = let x = phase + 500 * k in if x > horizon then List.rev acc else go (k + 1) (x :: acc) in go 0 [] in
+      let evs = List.sort (fun (a, oa, _) (b, ob, _) -> compare (a, oa) (b, ob))
+          (List.map (fun (x, c) -> (x, (if tick_first then 1 else 0), `Send c)) sends @ List.map (fun x -> (x, (if tick_first then 0 else 1), `Tick)) ticks) in
+      let start = ref 0 and step = ref 0 and body = ref 0 and has_cl = ref false and closed = ref false in
+      let codes = ref [] and handler = ref 0 and stop = ref false in
+      let last_send = match List.rev sends with (x, _) :: _ -> x | [] -> 0 in
+      let complete now = incr handler; codes := 200 :: !codes; start := now; step := 0; body := 0; has_cl := false;
+        if now >= last_send then stop := true in
+      List.iter (fun (now, _, k) ->
+          if not !closed && not !stop then
+            match k with
+            | `Tick ->
+              if M.idle (nat_of_int !step) (n_of_int (now - !start)) (n_of_int hT) (n_of_int bT) then begin
+                codes := 408 :: !codes; closed := true end
+            | `Send c ->
+              (match c with
+               | 'p' -> ()
+               | 'P' | 'q' -> step := 1
+               | 'h' -> has_cl := true
+               | 'e' -> if !has_cl then step := 2 else complete now
+               | 'b' -> body := !body + 5; if !body >= 10 then complete now
+               | 'B' -> body := !body + 10; if !body >= 10 then complete now
+               | 'g' -> complete now
+               | _ -> ())) evs;
+      Printf.sprintf "W codes=%s closed=%d handler=%d"
+        (if !codes = [] then "-" else String.concat "," (List.rev_map string_of_int !codes)) (if !closed then 1 else 0) !handler in
+    let outs = List.concat_map (fun phase -> List.concat_map (fun late -> [ simulate phase late true; simulate phase late false ]) [ 0; 30; 60 ])
+        (List.init 50 (fun i -> i * 10)) in
+    (match outs with
+     | o :: rest when List.for_all (fun x -> x = o) rest -> o
+     | _ -> "W UNSUPPORTED-BY-MODEL outcome depends on the phase of the 500 ms scan")
+  | _ -> "BADCASE"
+
 (* ---------------- wire forms (C05, C02) ---------------- *)
 
 let bytes_of_string (s : string) : M.ascii list = List.init (String.length s) (fun i -> ascii_of_int (Char.code s.[i]))
@@ -639,6 +689,7 @@ let () =
     | "lifecycle" -> lifecycle_case
     | "client" -> client_case
     | "dispatch" -> dispatch_case
+    | "timeout" -> timeout_case
     | _ -> failwith ("unknown area " ^ area) in
   try
     while true do
